@@ -73,6 +73,34 @@ def gen_state(rng, want=None, equal_gamma=False, pscale=1.0):
     return dict(rl=rl, ul=ul, pl=pl, gl=gl, rr=rr, ur=ur, pr=pr, gr=gr)
 
 
+def pattern_exact(st):
+    """wave pattern of ideal-gas data from the exact pressure-velocity functions: the left (right) wave is a shock iff the
+    star pressure exceeds pl (pr), i.e. iff f(pl) < 0 (f(pr) < 0) for the increasing function f(p) = fL(p) + fR(p) + ur - ul;
+    None if a vacuum forms"""
+    def fK(p, pk, rk, gk):
+        ak = math.sqrt(gk * pk / rk)
+        if p > pk:
+            return (p - pk) * math.sqrt(2.0 / ((gk + 1.0) * rk) / (p + (gk - 1.0) / (gk + 1.0) * pk))
+        return 2.0 * ak / (gk - 1.0) * ((p / pk) ** ((gk - 1.0) / (2.0 * gk)) - 1.0)
+    du = st["ur"] - st["ul"]
+    al, ar = math.sqrt(st["gl"] * st["pl"] / st["rl"]), math.sqrt(st["gr"] * st["pr"] / st["rr"])
+    if du >= 2.0 * al / (st["gl"] - 1.0) + 2.0 * ar / (st["gr"] - 1.0):
+        return None
+
+    def f(p):
+        return fK(p, st["pl"], st["rl"], st["gl"]) + fK(p, st["pr"], st["rr"], st["gr"]) + du
+    return ("S" if f(st["pl"]) < 0 else "R") + "C" + ("S" if f(st["pr"]) < 0 else "R")
+
+
+def gen_state_with_pattern(rng, want, tries=400):
+    """random (non-degenerate) data whose exact solution has the wanted pattern; None if none was found"""
+    for _ in range(tries):
+        st = gen_state(rng, want="any")
+        if pattern_exact(st) == want:
+            return st
+    return None
+
+
 def gen_frame(rng, st, tscale=None):
     """membrane position and time"""
     xd0 = uni(rng, -3, 3)
